@@ -368,7 +368,8 @@ def apply_rewrites(src, mask, it, ed, stats, spec_entry):
                 auto = '\n'
             else:
                 auto += '            decreases r3_it%d.end - r3_it%d.start,\n        ' % (k, k)
-        ed.replace(L['kw'], L['body_open'], '{ let mut r3_it%d = IntoIterator::into_iter(%s); loop %s' % (k, expr, auto))
+        into = expr if re.search(r'\.split_whitespace\(\)\s*$', expr) else 'IntoIterator::into_iter(%s)' % expr     # SplitWhitespace is an Iterator: into_iter is the identity
+        ed.replace(L['kw'], L['body_open'], '{ let mut r3_it%d = %s; loop %s' % (k, into, auto))
         ed.insert(L['body_open'] + 1, ' match r3_it%d.next() { None => break, Some(%s) => {' % (k, pat), prio=-10)
         ed.insert(L['body_close'], '} } ', prio=10)
         ed.insert(L['body_close'] + 1, ' }', prio=10)
@@ -455,6 +456,29 @@ def apply_rewrites(src, mask, it, ed, stats, spec_entry):
         if any(x <= lo + m.start() and lo + m.end() <= y + 1 for x, y in r4_ranges): continue
         ed.replace(lo + m.start(), lo + m.end(), 'crate::spec::f32_%s()' % {'MAX': 'max_value', 'MIN': 'min_value', 'INFINITY': 'infinity', 'NEG_INFINITY': 'neg_infinity', 'EPSILON': 'epsilon', 'NAN': 'nan'}[m.group(1)])
         stats['R7_cast_f32'] = stats.get('R7_cast_f32', 0) + 1
+    # R15: the str operations of the parser become wrappers whose bodies are the original expressions (their results stay uninterpreted):
+    #   X.starts_with("LIT")          => ({ proof { reveal_strlit("LIT"); } starts_with_lit(X, "LIT") })   [ensures: true => byte offset |LIT| is a char boundary inside X]
+    #   X[N..]                        => str_tail(X, N)                                                     [requires that boundary fact: the slice cannot panic]
+    #   E.strip_suffix("LIT")         => strip_suffix_lit(E, "LIT");   X.split("LIT") => split_lit(X, "LIT") (the pieces, collected)
+    #   X.to_string().parse::<T>()    => parse_i32 / parse_f32(&X.to_string())
+    for m in re.finditer(r'(?<![\w.])([a-z_]\w*)\.starts_with\(\s*("(?:[^"\\]|\\.)*")\s*\)', body):
+        if mask[lo + m.start()] != ord('c'): continue
+        ed.replace(lo + m.start(), lo + m.end(), '({ proof { reveal_strlit(%s); } crate::spec::starts_with_lit(%s, %s) })' % (m.group(2), m.group(1), m.group(2)))
+        stats['R15_str'] = stats.get('R15_str', 0) + 1
+    for m in re.finditer(r'(?<![\w.])([a-z_]\w*)\[\s*(\d+)\s*\.\.\s*\](\.strip_suffix\(\s*("(?:[^"\\]|\\.)*")\s*\))?', body):
+        if mask[lo + m.start()] != ord('c'): continue
+        t = 'crate::spec::str_tail(%s, %s)' % (m.group(1), m.group(2))
+        if m.group(3): t = 'crate::spec::strip_suffix_lit(%s, %s)' % (t, m.group(4))
+        ed.replace(lo + m.start(), lo + m.end(), t)
+        stats['R15_str'] = stats.get('R15_str', 0) + 1
+    for m in re.finditer(r'(?<![\w.])([a-z_]\w*)\.split\(\s*("(?:[^"\\]|\\.)*")\s*\)', body):
+        if mask[lo + m.start()] != ord('c'): continue
+        ed.replace(lo + m.start(), lo + m.end(), 'crate::spec::split_lit(%s, %s)' % (m.group(1), m.group(2)))
+        stats['R15_str'] = stats.get('R15_str', 0) + 1
+    for m in re.finditer(r'(?<![\w.])([a-z_]\w*)\.to_string\(\)\.parse::<(i32|f32)>\(\)', body):
+        if mask[lo + m.start()] != ord('c'): continue
+        ed.replace(lo + m.start(), lo + m.end(), 'crate::spec::parse_%s(&%s.to_string())' % (m.group(2), m.group(1)))
+        stats['R15_str'] = stats.get('R15_str', 0) + 1
     # R13: the two comparator closures the crate sorts with: `E.sort_by(|a, b| a.partial_cmp(b).unwrap());` / `E.sort_by(|a, b| a.total_cmp(b));`
     #      => named wrappers whose bodies are these very calls (assumed contracts: a permutation ordered by the comparator)
     for x in re.finditer(r'(?<![\w.])((?:\*?[A-Za-z_]\w*)(?:\.[A-Za-z_]\w*)*)\.sort_by\s*\(\s*\|\s*(\w+)\s*,\s*(\w+)\s*\|\s*(\w+)\.(partial_cmp\(\s*(\w+)\s*\)\.unwrap\(\)|total_cmp\(\s*(\w+)\s*\))\s*\)\s*;', body):
